@@ -6,13 +6,25 @@ open HyperModel.AuthBatch
 /-- item: (position, auth type id, verifies one-by-one) -/
 abbrev Item := Nat × Nat × Bool
 
+/-- item tokens: `<t><k>` (t = e|s|b; k = 1 valid, 0/2 invalid; `e3` small-order ZIP-215 vector,
+valid; `e4` the same with s = 1, invalid; `b5`/`b6` BLS signature ± a group element, each invalid);
+`e3.<i>.<j>` selects the encodings of signer and R (0..13), still valid. -/
 def parseItem (i : Nat) (t : String) : Option Item :=
-  match t.toList with
+  let parts := t.splitOn "."
+  let okSuffix : Bool := match parts with
+    | [_] => true
+    | [b, x, y] => b == "e3" && (match x.toNat?, y.toNat? with
+        | some a, some r => a < 14 && r < 14 && toString a == x && toString r == y
+        | _, _ => false)
+    | _ => false
+  if !okSuffix then none else
+  match (parts.headD "").toList with
   | [c, v] =>
     let ty? := if c = 'e' then some ed25519ID else if c = 's' then some secp256r1ID
                else if c = 'b' then some blsID else none
     let ok? := if v = '1' then some true else if v = '0' ∨ v = '2' then some false
-               else if c = 'e' ∧ v = '3' then some true else if c = 'e' ∧ v = '4' then some false else none
+               else if c = 'e' ∧ v = '3' then some true else if c = 'e' ∧ v = '4' then some false
+               else if c = 'b' ∧ (v = '5' ∨ v = '6') then some false else none
     match ty?, ok? with
     | some ty, some ok => some (i, ty, ok)
     | _, _ => none
